@@ -60,6 +60,12 @@ def plan(tier, seed):
     for n in (5, 6):
         for pi, par in enumerate(E2.parent_vectors(n)):
             tasks.append(("centre-with-three-ring-bonds", ("three", n, pi)))
+    scopes.append({"name": "spelled-out-tetrahedral-class", "n_max": 5, "r_max": 2, "tags": ["[C@TH1]", "[C@TH2]", "[C@TH1H]", "[C@TH2H]"],
+                   "desc": "@TH1 / @TH2 are OpenSMILES for @ / @@; documented as unsupported and rejected by the pinned encoder, "
+                           "judged like @ / @@ only when accepted", "table": RELAXED})
+    for n in range(3, 6):
+        for pi, par in enumerate(E2.parent_vectors(n)):
+            tasks.append(("spelled-out-tetrahedral-class", ("thclass", n, pi)))
     scopes.append({"name": "acyclic-centres", "n_max": 6, "desc": "no rings: every position, 4 tags (no inversion expected)",
                    "table": "default"})
     tasks.append(("acyclic-centres", ("acyc", 6)))
@@ -90,12 +96,12 @@ def use(table):
         _CUR[0] = key
 
 
-def check(smi, table, r, tolerant=False):
+def check(smi, table, r, tolerant=False, ext=False):
     use(table)
     r.evaluations += 1
     r.transitions += 1
     try:
-        ain = smiread.read_smiles(smi, tolerant=tolerant, ring_across_dot=False)
+        ain = smiread.read_smiles(smi, tolerant=tolerant, ring_across_dot=False, ext=ext)
     except smiread.SmiError:
         r.cov["generated form outside the reader's strict grammar"] += 1
         return None
@@ -171,6 +177,11 @@ def run(task):
                                 at[i] = tag
                                 smi = E2.write(n, par, rings, at, bt, scheme=sc, digit_perm=dp)
                                 last = (smi, check(smi, RELAXED, r))
+                                if n <= 4 and sc == "fresh":
+                                    # the same centre in a second / first fragment and next to a copy of itself
+                                    check("C1CC1." + smi, RELAXED, r)
+                                    check(smi + ".N", RELAXED, r)
+                                    check(smi + "." + smi, RELAXED, r)
                     else:
                         for i, j in itertools.combinations(range(n), 2):
                             for ti, tj in itertools.product(("[C@]", "[C@@H]"), repeat=2):
@@ -178,6 +189,19 @@ def run(task):
                                 at[i], at[j] = ti, tj
                                 smi = E2.write(n, par, rings, at, bt, scheme=sc, digit_perm=dp)
                                 last = (smi, check(smi, RELAXED, r))
+    elif kind == "thclass":
+        _, n, pi = arg
+        par = list(E2.parent_vectors(n))[pi]
+        bt = [""] * n
+        for rings in E2.ring_sets(n, par, 2, 0):
+            r.states += 1
+            for dp in E2.digit_orders(rings):
+                for i in range(n):
+                    for tag in ("[C@TH1]", "[C@TH2]", "[C@TH1H]", "[C@TH2H]"):
+                        at = ["C"] * n
+                        at[i] = tag
+                        smi = E2.write(n, par, rings, at, bt, digit_perm=dp)
+                        last = (smi, check(smi, RELAXED, r, ext=True))
     elif kind == "three":
         _, n, pi = arg
         par = list(E2.parent_vectors(n))[pi]
